@@ -17,8 +17,8 @@ Rec == ndJsonDeserialize(IOEnv.TRACE)
 Strict == IOEnv.STRICT = "1"
 N == Len(Rec)
 
-VARIABLES l, pre, wit
-tvars == <<vars, l, pre, wit>>
+VARIABLES l, pre, wit, bad
+tvars == <<vars, l, pre, wit, bad>>
 Ev == Rec[l]
 Adv == l' = l + 1
 Live == l <= N
@@ -31,7 +31,7 @@ E0 == UNCHANGED env
 DummyCfg == [routing |-> "queuer", kph |-> [k \in Keys |-> [n \in 1 .. MaxW |-> 0]], ch |-> [k \in Keys |-> [n \in 1 .. MaxW |-> 0]]]
 InitAct(n) == [i \in Incs |-> IF i <= n THEN [NoAct EXCEPT !.wid = i - 1, !.st = "alive"] ELSE NoAct]
 Blank == /\ cfg = DummyCfg /\ f = InitF(0, -1, "none", NoLb, FALSE, TRUE) /\ fmq = <<>> /\ fsq = <<>>
-         /\ act = InitAct(0) /\ jb = [j \in JobIds |-> NoJob] /\ now = 0 /\ mon = InitMon /\ env = 0 /\ pre = <<>> /\ wit = {}
+         /\ act = InitAct(0) /\ jb = [j \in JobIds |-> NoJob] /\ now = 0 /\ mon = InitMon /\ env = 0 /\ pre = <<>> /\ wit = {} /\ bad = {}
 Reset == /\ IsA("reset") /\ Adv
          /\ cfg' = DummyCfg /\ f' = InitF(0, -1, "none", NoLb, FALSE, TRUE) /\ fmq' = <<>> /\ fsq' = <<>>
          /\ act' = InitAct(0) /\ jb' = [j \in JobIds |-> NoJob] /\ now' = 0 /\ mon' = InitMon /\ pre' = <<>> /\ E0
@@ -161,7 +161,7 @@ Worker ==
   \/ IsA("obs.f_dead") /\ Adv /\ KeepPre /\ E0 /\ f.up = "dead" /\ UNCHANGED vars
 
 End == /\ IsA("obs.end") /\ Adv /\ KeepPre /\ E0 /\ UNCHANGED vars
-       /\ pre = <<>>
+       /\ pre = <<>> /\ bad = {}
        /\ Range(Ev.fin.live) = LiveIncs
        /\ (f.up = "dead" => Ev.fin.fst >= 5)
        /\ (~Strict => (fmq = <<>> \/ f.up # "run" \/ \A i \in 1 .. Len(fmq) : FALSE))
@@ -169,7 +169,19 @@ End == /\ IsA("obs.end") /\ Adv /\ KeepPre /\ E0 /\ UNCHANGED vars
 
 TStep == Reset \/ Cfg \/ Time \/ WNew \/ Discard \/ Cast \/ Hook \/ StepStrict \/ SilentStep \/ SilentStop \/ SkipStep \/ TSubmit \/ Client \/ Worker \/ End
 \* remember which property-level readings were broken at some state of the run
-TNext == TStep /\ wit' = (IF IsA("reset") THEN {} ELSE wit \cup Broken')
+\* ... and which invariants of Factory (read with the recorded deviations) failed at some state: such a run
+\* cannot pass its obs.end line, so it is rejected like any other unexplained run
+Violated == {n \in {"OneFate", "PortOk", "LostOnePerDeath", "NoFactoryPanic", "KeyExclusive", "KeyFifo", "OneAtATime", "RoundRobinCovers",
+                    "QueuerNoIdle", "ViewExact", "QueueBound", "HookOrder", "PoolConverges", "DrainComplete", "DrainRefuses"} :
+               ~(CASE n = "OneFate" -> OneFate [] n = "PortOk" -> PortOk [] n = "LostOnePerDeath" -> LostOnePerDeath
+                   [] n = "NoFactoryPanic" -> NoFactoryPanic [] n = "KeyExclusive" -> KeyExclusive [] n = "KeyFifo" -> KeyFifo
+                   [] n = "OneAtATime" -> OneAtATime [] n = "RoundRobinCovers" -> RoundRobinCovers [] n = "QueuerNoIdle" -> QueuerNoIdle
+                   [] n = "ViewExact" -> ViewExact [] n = "QueueBound" -> QueueBound [] n = "HookOrder" -> HookOrder
+                   [] n = "PoolConverges" -> PoolConverges [] n = "DrainComplete" -> DrainComplete [] OTHER -> DrainRefuses)}
+TNext == /\ TStep
+         /\ wit' = (IF IsA("reset") THEN {} ELSE wit \cup Broken')
+         /\ bad' = (IF IsA("reset") THEN {} ELSE bad \cup Violated')
+         /\ (bad' # bad => PrintT(<<"INVARIANT", bad' \ bad, l>>))
 TInit == Blank /\ l = 1 /\ TLCSet(42, 1)
 TSpec == TInit /\ [][TNext]_tvars
 Progress == TLCSet(42, IF l > TLCGet(42) THEN l ELSE TLCGet(42))
